@@ -48,6 +48,11 @@ STANDINS = {
     "FoldingRange": ("folding_range.rs", "FoldingRange", {}),
     "TextDocumentContentChangeEvent": ("lib.rs", "TextDocumentContentChangeEvent", {"Range": "PosRange"}),
     "Location": ("lib.rs", "Location", {"Range": "PosRange"}),
+    "TextEdit": ("lib.rs", "TextEdit", {"Range": "PosRange"}),
+    "ParameterInformation": ("signature_help.rs", "ParameterInformation", {}),
+    "SignatureInformation": ("signature_help.rs", "SignatureInformation", {}),
+    "SignatureHelp": ("signature_help.rs", "SignatureHelp", {}),
+    "Diagnostic": ("lib.rs", "Diagnostic", {"Range": "PosRange", "serde_json :: Value": "JsonValue"}),
 }
 
 def main():
@@ -68,7 +73,12 @@ def main():
         if want is None or got is None:
             bad.append(f"{local}: cannot find struct ({'vendored' if want is None else 'stand-in'})")
             continue
-        want = [(n, " ".join(ren.get(w, w) for w in t.split(" "))) for n, t in want]
+        def _ren(t):
+            for a_, b_ in ren.items():
+                if " " in a_:
+                    t = t.replace(a_, b_)
+            return " ".join(ren.get(w, w) for w in t.split(" "))
+        want = [(n, _ren(t)) for n, t in want]
         report[local] = {"fields": got}
         if want != got:
             bad.append(f"{local}: stand-in fields {got} differ from lsp-types {ver} {want}")
